@@ -565,6 +565,16 @@ func (pr *printer) emitterOpts(shape []int) []string {
 			}
 		}
 		n += k
+		if p := pr.p; !p.Bare && !p.Wrap && (p.nameOffset()/29)%2 == 0 {
+			// the emitter is a field of a struct value: WithEmitter(eh0.emitter),
+			// WithEmitter(eh1.emitter) - the same field of different values
+			if len(out) == 0 {
+				pr.decls.WriteString("type emHolder struct{ emitter cff.Emitter }\n\n")
+				fmt.Fprintf(&pr.pre, "\tehs := make([]emHolder, %d)\n", len(shape))
+			}
+			fmt.Fprintf(&pr.pre, "\tehs[%d].emitter = %s\n", len(out), e)
+			e = fmt.Sprintf("ehs[%d].emitter", len(out))
+		}
 		out = append(out, e)
 	}
 	return out
@@ -593,7 +603,7 @@ func (pr *printer) orderOpts(opts []opt) []string {
 	return out
 }
 
-var guestIdent = regexp.MustCompile(`\b(T\d+[es]?|A\d+|mkT\d+|unT\d+|E\d+|mkE\d+|unE\d+|C\d+|mkC\d+|G|hands|handsV|Run|runG|runV|topF\d+|genF\d+|resHolder|desc|concK|coeK)\b`)
+var guestIdent = regexp.MustCompile(`\b(T\d+[es]?|A\d+|mkT\d+|unT\d+|E\d+|mkE\d+|unE\d+|C\d+|mkC\d+|G|hands|handsV|emHolder|Run|runG|runV|topF\d+|genF\d+|resHolder|desc|concK|coeK)\b`)
 
 // guestSource prints program g for inclusion in the file of program host: the
 // declarations of g's own file (everything after its imports) with every
